@@ -23,6 +23,9 @@ def build(tier, seed):
             for ___ in ():
                 pass
     qs.append(sc.sq("tmpdir_trailing_slash", [B, A, B], maxmem=18, slash=1))
+    # an EMPTY merge result is a legal value, not a failed merge: duplicates inside one chunk and across chunks
+    qs.append(sc.sq("empty_merge_in_chunk", [B, A, B], maxmem=40, mergeempty=1))
+    qs.append(sc.sq("empty_merge_across_chunks", [B, A, B], maxmem=18, mergeempty=1))
     qs.append(sc.sq("after_iter", [B, A, B], maxmem=40, scen=2))
     qs.append(sc.sq("after_iter_pool", [B, A, B], maxmem=40, scen=2, pool=1, deliver=2))
     qs.append(sc.sq("options", [A], entry="h_sorter_options", witness=True))
